@@ -49,6 +49,7 @@ def serve():
 class Client:
     def __init__(self):
         self.p = None
+        self.owner_pid = None
         self.requests = 0
 
     def _start(self):
@@ -60,9 +61,15 @@ class Client:
         ready = json.loads(self.p.stdout.readline())
         assert ready.get('ready')
 
-    def ask(self, spec):
+    def ensure_started(self):
+        if self.p is not None and self.owner_pid != os.getpid():
+            return  # forked child of the owner: Popen.poll() would wrongly report the server dead (ECHILD); use the inherited pipes
         if self.p is None or self.p.poll() is not None:
             self._start()
+            self.owner_pid = os.getpid()
+
+    def ask(self, spec):
+        self.ensure_started()
         self.requests += 1
         self.p.stdin.write(json.dumps({'spec': spec}) + '\n')
         self.p.stdin.flush()
